@@ -63,24 +63,42 @@ TraceSpec == TraceInit /\ [][TraceNext]_tvars
    universe *)
 Scale_Exact == obs.inexact = 0
 
+(* An ACCEPTED message names accounts and coins of the logged universe in every
+   field the clauses index the balance sheet by.  On the unchanged tree this always
+   holds (the code refuses what is no address / no token's coin).  A tree that
+   accepts such a message — a receiver that is no account, a coin that is no
+   token's — fails the clause that talks about that account or coin, instead of
+   leaving TLC with an expression it cannot evaluate (an inconclusive run). *)
+InUniverse(s, e) ==
+  e.ok =>
+    LET rcpt == IF e.to = "" THEN e.who ELSE e.to IN
+    /\ (e.name \in {"Mint", "Burn", "SwapFee", "ToERC20", "FromERC20"} \/ GenuineHook(e)) =>
+         e.mu \in DOMAIN s.supply
+    /\ (e.name \in {"Issue", "Mint", "Burn", "SwapFee", "ToERC20"}) => e.who \in DOMAIN s.bal
+    /\ (e.name \in {"Mint", "SwapFee"}) => rcpt \in DOMAIN s.bal
+    /\ (e.name = "FromERC20" \/ GenuineHook(e)) => e.to \in DOMAIN s.bal /\ e.who \in ErcAddrs(s)
+    /\ (e.name = "ToERC20") => e.to \in ErcAddrs(s)
+    /\ (e.name = "Issue") => e.mu \in DOMAIN s.supply
+U(names) == (ev.name \in names) => InUniverse(pre, ev)    \* (reported under the clause about that message)
+
 Clauses ==
   [C09_Identity |-> C09_Identity(pre, st, gh),
    C09_Authority |-> C09_Authority(pre, ev, st),
    C09_Cap |-> C09_Cap(pre, ev, st),
-   C09_Burned |-> C09_Burned(pre, ev, st),
-   C09_Fee |-> C09_Fee(pre, ev, st),
+   C09_Burned |-> U({"Burn"}) /\ C09_Burned(pre, ev, st),
+   C09_Fee |-> U({"Issue", "Mint"}) /\ C09_Fee(pre, ev, st),
    C09_ScaleExact |-> Scale_Exact,
    Rejected_NoEffect |-> Rejected_NoEffect(pre, ev, st),
-   C10_ToERC20 |-> C10_ToERC20(pre, ev, st),
-   C10_FromERC20 |-> C10_FromERC20(pre, ev, st),
-   C10_Hook |-> C10_Hook(pre, ev, st),
+   C10_ToERC20 |-> U({"ToERC20"}) /\ C10_ToERC20(pre, ev, st),
+   C10_FromERC20 |-> U({"FromERC20"}) /\ C10_FromERC20(pre, ev, st),
+   C10_Hook |-> U({"Hook"}) /\ C10_Hook(pre, ev, st),
    C10_SumConst |-> C10_SumConst(pre, ev, st),
    C10_FailAtomic |-> C10_FailAtomic(pre, ev, st),
    C10_NoOverBurn |-> C10_NoOverBurn(pre, ev, st),
    C10_Worth |-> C10_Worth(pre, ev, st),
    C10_ExactAtOne |-> C10_ExactAtOne(pre, ev, st),
    C10_Dust |-> C10_Dust(pre, ev, st),
-   C10_SwapSettle |-> C10_SwapSettle(pre, ev, st),
+   C10_SwapSettle |-> U({"SwapFee"}) /\ C10_SwapSettle(pre, ev, st),
    C10_ScaleExact |-> Scale_Exact,
    \* diagnostics beyond the listed properties
    X09_SupplyLedger |-> X09_SupplyLedger(st, gh),
@@ -107,8 +125,22 @@ NotOwner(s, e) ==
   \/ (OwnerOp(e) /\ e.sym \in DOMAIN s.tok /\ s.tok[e.sym].owner # e.who)
   \/ (e.name = "Mint" /\ HasMinUnit(s, e.mu) /\ TokOf(s, e.mu).owner # e.who)
 
+(* negative probing: what kind of wrong input a rejected event carried *)
+UpSeq == <<"A", "B", "C", "D", "E", "F", "G", "H", "I", "J", "K", "L", "M",
+           "N", "O", "P", "Q", "R", "S", "T", "U", "V", "W", "X", "Y", "Z">>
+LoSeq == <<"a", "b", "c", "d", "e", "f", "g", "h", "i", "j", "k", "l", "m",
+           "n", "o", "p", "q", "r", "s", "t", "u", "v", "w", "x", "y", "z">>
+LowerChar(c) == IF c \in UpperC THEN LoSeq[CHOOSE i \in 1..26 : UpSeq[i] = c] ELSE c
+RECURSIVE ToLower(_)
+ToLower(x) == IF Len(x) = 0 THEN "" ELSE LowerChar(CharAt(x, 1)) \o ToLower(SubSeq(x, 2, Len(x)))
+MsgNames == {"Issue", "Edit", "TransferOwner", "Mint", "Burn", "SwapFee", "Deploy", "ToERC20", "FromERC20"}
+CoinMsgs == {"Mint", "Burn", "SwapFee", "ToERC20", "FromERC20"}
+Idents(e) == IF e.name \in MsgNames \/ GenuineHook(e) THEN {e.sym, e.mu} \ {""} ELSE {}
+CaseTwin(s, x) == x # ToLower(x) /\ KnownDenom(s, ToLower(x))
+
 Exercised ==
   IF ev.name = "Init" THEN {} ELSE
+  LET w == Apply(pre, ev).why IN     \* (evaluated once per event)
   {c \in {"issue_ok", "edit_ok", "edit_max_ok", "edit_max_rej", "mint_ok", "mint_to_cap",
           "mint_over_cap_rej", "mint_not_mintable_rej", "burn_ok", "burn_frac", "transfer_ok",
           "old_owner_rej", "new_owner_ok", "not_owner_rej", "dup_symbol_rej", "dup_minunit_rej", "fee_tax_pos",
@@ -117,16 +149,21 @@ Exercised ==
           "swapfee_panic", "lossless_row", "lossless_giveback", "lossless_ratio1",
           "deploy_native_ok", "deploy_ibc_ok", "deploy_twice_rej", "deploy_unknown_rej",
           "conv_native_ok", "hook_forged_ignored", "hook_forged_rej", "upgrade_ok", "upgrade_rej",
-          "f12_shape", "fee_len_other", "issue_at_cap", "mint_room0_rej"} :
+          "f12_shape", "fee_len_other", "issue_at_cap", "mint_room0_rej",
+          "case_twin_rej", "reserved_rej", "len_max_ok", "len_over_rej", "fee_denom_rej", "cross_kind_rej",
+          "amt0_rej", "bad_addr_rej", "module_owned_rej", "stranger_rej", "issue_cap_below_initial_rej",
+          "to_module_rej", "not_deployed_rej", "conv_no_token_rej", "swap_no_route_rej", "deploy_disabled_rej",
+          "deploy_evm_rej", "evm_noeffect_rej", "odd_coin_rej", "burn_to_zero", "prefix_rej",
+          "beacon_unset_rej", "hook_bad_receiver_rej"} :
      CASE c = "issue_ok" -> ev.name = "Issue" /\ ev.ok
        [] c = "edit_ok" -> ev.name = "Edit" /\ ev.ok
        [] c = "edit_max_ok" -> ev.name = "Edit" /\ ev.ok /\ ev.max > 0
-       [] c = "edit_max_rej" -> ev.name = "Edit" /\ ~ev.ok /\ Apply(pre, ev).why = "max_below_supply"
+       [] c = "edit_max_rej" -> ev.name = "Edit" /\ ~ev.ok /\ w = "max_below_supply"
        [] c = "mint_ok" -> ev.name = "Mint" /\ ev.ok
        [] c = "mint_to_cap" -> ev.name = "Mint" /\ ev.ok /\ HasMinUnit(st, ev.mu)
                                /\ st.supply[ev.mu] = TokOf(st, ev.mu).max * Pow10(TokOf(st, ev.mu).scale)
-       [] c = "mint_over_cap_rej" -> ev.name = "Mint" /\ ~ev.ok /\ Apply(pre, ev).why = "exceeds_cap"
-       [] c = "mint_not_mintable_rej" -> ev.name = "Mint" /\ ~ev.ok /\ Apply(pre, ev).why = "not_mintable"
+       [] c = "mint_over_cap_rej" -> ev.name = "Mint" /\ ~ev.ok /\ w = "exceeds_cap"
+       [] c = "mint_not_mintable_rej" -> ev.name = "Mint" /\ ~ev.ok /\ w = "not_mintable"
        [] c = "burn_ok" -> ev.name = "Burn" /\ ev.ok
        [] c = "burn_frac" -> ev.name = "Burn" /\ ev.ok /\ FracBurn(pre, ev)
        [] c = "transfer_ok" -> ev.name = "TransferOwner" /\ ev.ok
@@ -149,18 +186,18 @@ Exercised ==
        [] c = "fromerc_ok" -> ev.name = "FromERC20" /\ ev.ok
        [] c = "conv_rej" -> ev.name \in ConvMsgs /\ ~ev.ok
        [] c = "evm_fail_rej" -> ev.name \in ConvMsgs /\ ~ev.ok
-                                /\ Apply(pre, ev).why \in {"evm_revert", "evm_postcheck", "unsupported_key"}
-       [] c = "erc_disabled_rej" -> ev.name \in ConvMsgs /\ ~ev.ok /\ Apply(pre, ev).why = "erc20_disabled"
-       [] c = "blocked_rej" -> ~ev.ok /\ Apply(pre, ev).why = "blocked"
+                                /\ w \in {"evm_revert", "evm_postcheck", "unsupported_key"}
+       [] c = "erc_disabled_rej" -> ev.name \in ConvMsgs /\ ~ev.ok /\ w = "erc20_disabled"
+       [] c = "blocked_rej" -> ~ev.ok /\ w = "blocked"
        [] c = "hook_ok" -> GenuineHook(ev) /\ ev.ok
        [] c = "swapfee_ok" -> ev.name = "SwapFee" /\ ev.ok
        [] c = "swapfee_dust" -> ev.name = "SwapFee" /\ ev.ok /\ ev.burn < ev.amt
        [] c = "swapfee_panic" -> ev.name = "SwapFee" /\ ev.panic
        [] c = "deploy_native_ok" -> ev.name = "Deploy" /\ ev.ok /\ ev.mu = STAKE
        [] c = "deploy_ibc_ok" -> ev.name = "Deploy" /\ ev.ok /\ ev.mu # STAKE /\ ~HasMinUnit(pre, ev.mu)
-       [] c = "deploy_twice_rej" -> ev.name = "Deploy" /\ ~ev.ok /\ Apply(pre, ev).why = "already_deployed"
+       [] c = "deploy_twice_rej" -> ev.name = "Deploy" /\ ~ev.ok /\ w = "already_deployed"
        [] c = "deploy_unknown_rej" -> ev.name = "Deploy" /\ ~ev.ok
-                                     /\ Apply(pre, ev).why \in {"no_token", "symbol_exists"}
+                                     /\ w \in {"no_token", "symbol_exists"}
        [] c = "conv_native_ok" -> ev.name \in ConvMsgs /\ ev.ok /\ ev.mu = STAKE /\ ev.sym = ""
        [] c = "hook_forged_ignored" -> ev.name = "Hook" /\ ev.sym # "" /\ ev.ok
        [] c = "hook_forged_rej" -> ev.name = "Hook" /\ ev.sym # "" /\ ~ev.ok
@@ -171,8 +208,40 @@ Exercised ==
        [] c = "issue_at_cap" -> ev.name = "Issue" /\ ev.ok /\ ev.sym \in DOMAIN st.tok
                                 /\ st.tok[ev.sym].mintable /\ st.tok[ev.sym].max = st.tok[ev.sym].initial
                                 /\ st.tok[ev.sym].initial > 0
-       [] c = "mint_room0_rej" -> ev.name = "Mint" /\ ~ev.ok /\ Apply(pre, ev).why = "exceeds_cap"
+       [] c = "mint_room0_rej" -> ev.name = "Mint" /\ ~ev.ok /\ w = "exceeds_cap"
                                   /\ pre.supply[ev.mu] = TokOf(pre, ev.mu).max * Pow10(TokOf(pre, ev.mu).scale)
+       [] c = "case_twin_rej" -> ~ev.ok /\ \E x \in Idents(ev) : CaseTwin(pre, x)
+       [] c = "reserved_rej" -> ~ev.ok /\ \E x \in Idents(ev) : Keyword(x) /\ x \notin IBCDenoms
+       [] c = "prefix_rej" -> ~ev.ok /\ \E x \in Idents(ev) : ~KnownDenom(pre, x) /\
+                                 \E y \in DOMAIN pre.tok \cup DOMAIN pre.byMinUnit :
+                                   (HasPrefix(y, x) \/ HasPrefix(x, y)) /\ Len(x) # Len(y)
+       [] c = "len_max_ok" -> ev.name = "Issue" /\ ev.ok /\ (Len(ev.sym) = 64 \/ Len(ev.mu) = 64)
+       [] c = "len_over_rej" -> ev.name = "Issue" /\ ~ev.ok /\ (Len(ev.sym) > 64 \/ Len(ev.mu) > 64)
+       [] c = "fee_denom_rej" -> ev.name = "Issue" /\ ~ev.ok /\ (ev.sym = STAKE \/ ev.mu = STAKE)
+       [] c = "cross_kind_rej" -> ~ev.ok /\
+            \/ (ev.name \in CoinMsgs /\ ev.mu \in DOMAIN pre.tok /\ ~HasMinUnit(pre, ev.mu))
+            \/ (OwnerOp(ev) /\ HasMinUnit(pre, ev.sym) /\ ev.sym \notin DOMAIN pre.tok)
+       [] c = "amt0_rej" -> ~ev.ok /\ ev.name \in CoinMsgs /\ ev.amt = 0
+       [] c = "bad_addr_rej" -> ~ev.ok /\ ev.name \in {"Mint", "TransferOwner", "SwapFee", "FromERC20", "ToERC20"}
+                                /\ ev.to # "" /\ ev.to \notin DOMAIN pre.bal \cup {EXT}
+       [] c = "hook_bad_receiver_rej" -> GenuineHook(ev) /\ ~ev.ok /\ w = "bad_log"
+       [] c = "module_owned_rej" -> ~ev.ok /\ OwnerOp(ev) /\ ev.sym \in DOMAIN pre.tok /\ pre.tok[ev.sym].owner = TOK
+       [] c = "stranger_rej" -> ~ev.ok /\ NotOwner(pre, ev)
+                                /\ LET y == IF OwnerOp(ev) THEN ev.sym ELSE pre.byMinUnit[ev.mu]
+                                   IN y \in DOMAIN gh.pastOwners /\ ev.who \notin gh.pastOwners[y]
+       [] c = "issue_cap_below_initial_rej" -> ev.name = "Issue" /\ ~ev.ok /\ ev.max > 0 /\ ev.max < ev.initial
+                                               /\ ev.mintable = "false"
+       [] c = "to_module_rej" -> ~ev.ok /\ ev.to = TOK /\ w = "blocked"
+       [] c = "not_deployed_rej" -> ev.name \in ConvMsgs /\ ~ev.ok /\ w = "not_deployed"
+       [] c = "conv_no_token_rej" -> ev.name \in ConvMsgs /\ ~ev.ok /\ w = "no_token"
+       [] c = "swap_no_route_rej" -> ev.name = "SwapFee" /\ ~ev.ok /\ w = "no_swap"
+       [] c = "deploy_disabled_rej" -> ev.name = "Deploy" /\ ~ev.ok /\ w = "erc20_disabled"
+       [] c = "beacon_unset_rej" -> ev.name \in {"Deploy", "Upgrade"} /\ ~ev.ok /\ w = "no_beacon"
+       [] c = "deploy_evm_rej" -> ev.name = "Deploy" /\ ~ev.ok /\ w = "evm_revert"
+       [] c = "evm_noeffect_rej" -> ev.name \in ConvMsgs /\ ~ev.ok /\ w = "evm_postcheck" /\ ev.amt = 1
+       [] c = "odd_coin_rej" -> ~ev.ok /\ ev.name \in CoinMsgs \cup {"Deploy", "Issue"} /\ ev.mu \in OddFunded
+                                /\ ev.mu \in DOMAIN pre.supply
+       [] c = "burn_to_zero" -> ev.name = "Burn" /\ ev.ok /\ HasMinUnit(pre, ev.mu) /\ st.supply[ev.mu] = 0
        [] c = "lossless_row" -> ev.name = "LossLess" /\ ev.ok
        [] c = "lossless_giveback" -> ev.name = "LossLess" /\ ev.ok /\ ev.burn # ev.amt
        [] c = "lossless_ratio1" -> ev.name = "LossLess" /\ ev.ok /\ ev.rn = ev.rd /\ ev.burn # ev.amt}
